@@ -34,15 +34,15 @@ THEOREMS = {
         "Dawgs.C10.Props.literal_roundtrip_list",
         "Dawgs.C10.Props.float_integral_becomes_int_old",
         "Dawgs.C10.Props.literal_roundtrip_string",
+        "Dawgs.C10.Props.prepare_preserves_eval_fix7",
+        "Dawgs.C10.Props.prepare_hoists_at_most_one_fix7",
         "Dawgs.C10.Props.prepare_preserves_eval",
-        "Dawgs.C10.Props.prepare_hoists_at_most_one",
-        "Dawgs.C10.Props.prepare_preserves_eval_old",
-        "Dawgs.C10.Props.hoist_from_or_changes_meaning_old",
-        "Dawgs.C10.Props.hoist_from_xor_changes_meaning_old",
-        "Dawgs.C10.Props.prepare_keeps_negated_kind_matcher_old",
+        "Dawgs.C10.Props.hoist_from_or_changes_meaning",
+        "Dawgs.C10.Props.hoist_from_xor_changes_meaning",
+        "Dawgs.C10.Props.prepare_keeps_negated_kind_matcher",
         "Dawgs.C10.Props.hoist_from_negation_changes_meaning",
-        "Dawgs.C10.Props.two_hoisted_conjuncts_change_meaning_old",
-        "Dawgs.C10.Props.hoist_all_of_changes_meaning_old",
+        "Dawgs.C10.Props.two_hoisted_conjuncts_change_meaning",
+        "Dawgs.C10.Props.hoist_all_of_changes_meaning",
         "Dawgs.C10.Props.string_negation_guard_eval",
         "Dawgs.C10.Props.query_parse_emit",
         "Dawgs.C10.Props.query_roundtrip",
@@ -51,11 +51,11 @@ THEOREMS = {
     ],
 }
 
-# VERIF_C10_MODE selects which state of /repo the Lean side answers for:
-#   live (default)  format.go with the three C10 fixes AND Prepare with hooks/C10-fix7 (hoist one any-of matcher from a conjunctive position)
-#   prepold         format.go with the fixes, Prepare before fix7
-#   current         everything before the fixes
-MODE = {"prepold": "prepold", "current": "current"}.get(os.environ.get("VERIF_C10_MODE", ""), "fixed")
+# VERIF_C10_MODE selects what the Lean side answers for:
+#   live (default)  format.go and QueryBuilder.Prepare as they are in /repo
+#   fix7            Prepare with the proposal hooks/C10-fix7 applied to the tree under test (not taken by the maintainers' proxy)
+#   current         format.go before the three emitter fixes (4086218, 04efdd9, 7bfe5dc)
+MODE = {"fix7": "fix7", "current": "current"}.get(os.environ.get("VERIF_C10_MODE", ""), "fixed")
 
 
 def fields(line):
@@ -351,7 +351,8 @@ MANIFEST = {
             "plus Not over a bare list and repeated NOT) with valuations showing the meaning changes. norm preserves three-valued evaluation "
             "(norm_preserves_eval). String escaping round-trips for all strings (literal_roundtrip_string). Prepare's hoisting of a relationship kind "
             "matcher onto the MATCH pattern preserves the three-valued meaning when the matcher is the only one hoisted, any-of, and in a purely "
-            "conjunctive un-negated position (prepare_preserves_eval), with separating valuations for OR/XOR/negation/second-matcher/all-of. The tie compares, for every generated term, "
+            "conjunctive un-negated position (prepare_preserves_eval, hypothesis hoistOK), with separating valuations for OR/XOR/negation/second-matcher/all-of "
+            "(known findings); the proposal hooks/C10-fix7 is proved meaning-preserving without that hypothesis (prepare_preserves_eval_fix7). The tie compares, for every generated term, "
             "Lean emit with the real text token-wise (WHERE expression and whole query), Lean norm with the harness normaliser, Lean parse∘emit with the real "
             "re-parse, the Lean model of whole-query Prepare (parameter names p0.. in text order, kinds hoisted onto the pattern) with the real one, and the Lean model of "
             "Prepare (kinds on the pattern + rewritten WHERE) with the real Prepare; every criteria value is rendered through two fresh neo4j builders and "
